@@ -233,6 +233,97 @@ theorem mov64_idempotent (hh : HasHooks) (i : Instr) (s : Machine) (d sr : Fin 1
   rw [Regs.get_set_ne _ _ _ _ hne]
   simp [Regs.set]
 
+
+/-! ## the 32-bit register/register family: result zero-extended into the whole destination, flags at width 32 -/
+
+/-- **Every flag-setting `op r/m32, r32` row with register operands**, generic in the operation `g` (which may read the
+    carry-in): the destination's *whole* 64-bit register becomes the zero-extended 32-bit result (upper half cleared
+    whatever it held), ZF/SF/PF describe the 32-bit result, CF/OF are the operation's, all else is kept. -/
+theorem exec_rmR32_alu (hh : HasHooks) (i : Instr) (s : Machine) (d sr : Fin 16) (op : Op2)
+    (g : Bool → BitVec 32 → BitVec 32 → BitVec 32 × BitVec 64)
+    (hrow : lookup i.code = some (.rmR 32 32 op SZP CO))
+    (hops : instructionOperands2 i = .ok (.register (.g32 d), .register (.g32 sr)))
+    (happ : ∀ c a b, applyOp2 op c 32 32 a b =
+      ((g c (a.setWidth 32) ((b.setWidth 32).setWidth 32)).1.setWidth 64, (g c (a.setWidth 32) ((b.setWidth 32).setWidth 32)).2))
+    (hrest : ∀ c a b, (g c a b).2 &&& ~~~CO = 0) :
+    ∃ f, exec hh i s = .ok { s with rflags := f, regs := s.regs.set d ((g (s.rflags &&& FLAG_CF != 0) ((s.regs.get d).setWidth 32) ((s.regs.get sr).setWidth 32)).1.setWidth 64) } ∧
+      C02.has f FLAG_ZF = decide ((g (s.rflags &&& FLAG_CF != 0) ((s.regs.get d).setWidth 32) ((s.regs.get sr).setWidth 32)).1 = 0) ∧
+      C02.has f FLAG_SF = (g (s.rflags &&& FLAG_CF != 0) ((s.regs.get d).setWidth 32) ((s.regs.get sr).setWidth 32)).1.msb ∧
+      C02.has f FLAG_PF = parityEven (g (s.rflags &&& FLAG_CF != 0) ((s.regs.get d).setWidth 32) ((s.regs.get sr).setWidth 32)).1 ∧
+      C02.has f FLAG_CF = C02.has (g (s.rflags &&& FLAG_CF != 0) ((s.regs.get d).setWidth 32) ((s.regs.get sr).setWidth 32)).2 FLAG_CF ∧
+      C02.has f FLAG_OF = C02.has (g (s.rflags &&& FLAG_CF != 0) ((s.regs.get d).setWidth 32) ((s.regs.get sr).setWidth 32)).2 FLAG_OF ∧
+      f &&& ~~~(SZP ||| CO ||| NO_WRITEBACK) = s.rflags &&& ~~~(SZP ||| CO ||| NO_WRITEBACK) := by
+  unfold exec
+  simp only [hrow, calcRmR, hops, AxOperand.toReg, readReg, regReadW, regRead32, readRM, finish, setFlagsW]
+  have hd := low32_setWidth (s.regs.get d)
+  have hs := low32_setWidth' (s.regs.get sr)
+  rw [happ, hd, hs]
+  generalize hp : g (s.rflags &&& FLAG_CF != 0) ((s.regs.get d).setWidth 32) ((s.regs.get sr).setWidth 32) = p
+  have hrest' : p.2 &&& ~~~CO = 0 := by rw [← hp]; exact hrest _ _ _
+  have hfl : p.2 = p.2 &&& CO := flags_within_CO _ hrest'
+  obtain ⟨f, hf, hz, hsf, hpf, hcf, hof, hkeep⟩ := C02.setFlags_alu false p.2 p.1 s.rflags
+  have hset : SZP ||| p.2 = C02.aluSet false p.2 := by rw [C02.aluSet, ← hfl]; simp
+  have hsw : (p.1.setWidth 64).setWidth 32 = p.1 := by simp [BitVec.setWidth_setWidth_of_le]
+  refine ⟨f, ?_, hz, hsf, hpf, hcf, hof, hkeep⟩
+  rw [hset, hsw, hf]
+  have hnw : (SZP &&& NO_WRITEBACK == 0) = true := by
+    simp only [SZP, NO_WRITEBACK, FLAG_SF, FLAG_ZF, FLAG_PF]; decide
+  simp only [hnw, if_true, ExecRes.ofOut, writeRM, writeReg32_fit]
+
+theorem lookup_sub32 : lookup "Sub_rm32_r32" = some (.rmR 32 32 .sub SZP CO) := by decide +kernel
+theorem lookup_adc32 : lookup "Adc_rm32_r32" = some (.rmR 32 32 .adc SZP CO) := by decide +kernel
+theorem lookup_and32 : lookup "And_rm32_r32" = some (.rmR 32 32 .and SZP CO) := by decide +kernel
+theorem lookup_xor32 : lookup "Xor_rm32_r32" = some (.rmR 32 32 .xor SZP CO) := by decide +kernel
+
+/-- **ADD r32, r32 with flags**: zero-extended 32-bit sum; CF/OF are the 32-bit unsigned/signed overflow. -/
+theorem add_r32_r32 (hh : HasHooks) (i : Instr) (s : Machine) (d sr : Fin 16) (hc : i.code = "Add_rm32_r32")
+    (hops : instructionOperands2 i = .ok (.register (.g32 d), .register (.g32 sr))) :
+    ∃ f, exec hh i s = .ok { s with rflags := f, regs := s.regs.set d (((s.regs.get d).setWidth 32 + (s.regs.get sr).setWidth 32).setWidth 64) } ∧
+      C02.has f FLAG_CF = BitVec.uaddOverflow ((s.regs.get d).setWidth 32) ((s.regs.get sr).setWidth 32) ∧
+      C02.has f FLAG_OF = BitVec.saddOverflow ((s.regs.get d).setWidth 32) ((s.regs.get sr).setWidth 32) ∧
+      C02.has f FLAG_ZF = decide ((s.regs.get d).setWidth 32 + (s.regs.get sr).setWidth 32 = 0) ∧
+      C02.has f FLAG_SF = ((s.regs.get d).setWidth 32 + (s.regs.get sr).setWidth 32).msb := by
+  have hrow : lookup i.code = some (.rmR 32 32 .add SZP CO) := by rw [hc]; exact lookup_add32
+  obtain ⟨f, he, hz, hsf, _, hcf, hof, _⟩ := exec_rmR32_alu hh i s d sr .add (fun _ a b => opAdd a b) hrow hops
+    (by intro c a b; simp [applyOp2]) (by intro _ a b; exact (C02.add_spec_32 a b).2.2.2)
+  obtain ⟨hres, hcf', hof', _⟩ := C02.add_spec_32 ((s.regs.get d).setWidth 32) ((s.regs.get sr).setWidth 32)
+  simp only [hres] at he hz hsf
+  exact ⟨f, he, by rw [hcf, hcf'], by rw [hof, hof'], hz, hsf⟩
+
+/-- **SUB r32, r32 with flags**. -/
+theorem sub_r32_r32 (hh : HasHooks) (i : Instr) (s : Machine) (d sr : Fin 16) (hc : i.code = "Sub_rm32_r32")
+    (hops : instructionOperands2 i = .ok (.register (.g32 d), .register (.g32 sr))) :
+    ∃ f, exec hh i s = .ok { s with rflags := f, regs := s.regs.set d (((s.regs.get d).setWidth 32 - (s.regs.get sr).setWidth 32).setWidth 64) } ∧
+      C02.has f FLAG_CF = BitVec.usubOverflow ((s.regs.get d).setWidth 32) ((s.regs.get sr).setWidth 32) ∧
+      C02.has f FLAG_OF = BitVec.ssubOverflow ((s.regs.get d).setWidth 32) ((s.regs.get sr).setWidth 32) ∧
+      C02.has f FLAG_ZF = decide ((s.regs.get d).setWidth 32 - (s.regs.get sr).setWidth 32 = 0) ∧
+      C02.has f FLAG_SF = ((s.regs.get d).setWidth 32 - (s.regs.get sr).setWidth 32).msb := by
+  have hrow : lookup i.code = some (.rmR 32 32 .sub SZP CO) := by rw [hc]; exact lookup_sub32
+  obtain ⟨f, he, hz, hsf, _, hcf, hof, _⟩ := exec_rmR32_alu hh i s d sr .sub (fun _ a b => opSub a b) hrow hops
+    (by intro c a b; simp [applyOp2]) (by intro _ a b; exact (C02.sub_spec_32 a b).2.2.2)
+  obtain ⟨hres, hcf', hof', _⟩ := C02.sub_spec_32 ((s.regs.get d).setWidth 32) ((s.regs.get sr).setWidth 32)
+  simp only [hres] at he hz hsf
+  exact ⟨f, he, by rw [hcf, hcf'], by rw [hof, hof'], hz, hsf⟩
+
+/-- **XOR r32, r32**; with `d = sr` the compilers' zeroing idiom `xor eax, eax` clears all 64 bits. -/
+theorem xor_r32_r32 (hh : HasHooks) (i : Instr) (s : Machine) (d sr : Fin 16) (hc : i.code = "Xor_rm32_r32")
+    (hops : instructionOperands2 i = .ok (.register (.g32 d), .register (.g32 sr))) :
+    ∃ f, exec hh i s = .ok { s with rflags := f, regs := s.regs.set d (((s.regs.get d).setWidth 32 ^^^ (s.regs.get sr).setWidth 32).setWidth 64) } ∧
+      C02.has f FLAG_CF = false ∧ C02.has f FLAG_OF = false ∧
+      C02.has f FLAG_ZF = decide ((s.regs.get d).setWidth 32 ^^^ (s.regs.get sr).setWidth 32 = 0) := by
+  have hrow : lookup i.code = some (.rmR 32 32 .xor SZP CO) := by rw [hc]; exact lookup_xor32
+  obtain ⟨f, he, hz, _, _, hcf, hof, _⟩ := exec_rmR32_alu hh i s d sr .xor (fun _ a b => (a ^^^ b, 0)) hrow hops
+    (by intro c a b; simp [applyOp2]) (by intro _ a b; simp)
+  exact ⟨f, he, by simpa [has_zero] using hcf, by simpa [has_zero] using hof, hz⟩
+
+theorem xor32_same_zero (hh : HasHooks) (i : Instr) (s : Machine) (d : Fin 16) (hc : i.code = "Xor_rm32_r32")
+    (hops : instructionOperands2 i = .ok (.register (.g32 d), .register (.g32 d))) :
+    ∃ f, exec hh i s = .ok { s with rflags := f, regs := s.regs.set d 0 } ∧ C02.has f FLAG_ZF = true ∧
+      C02.has f FLAG_CF = false ∧ C02.has f FLAG_OF = false := by
+  obtain ⟨f, he, hcf, hof, hz⟩ := xor_r32_r32 hh i s d d hc hops
+  simp only [BitVec.xor_self] at he hz
+  exact ⟨f, by simpa using he, by simpa using hz, hcf, hof⟩
+
 /-! ## non-vacuity: a concrete instruction meets the hypotheses -/
 
 def xorRaxRax : Instr := { code := "Xor_rm64_r64", mnem := "Xor", len := 3, nextIp := 0x1003#64, ops := [.reg (.reg (.g64 0)), .reg (.reg (.g64 0))] }
